@@ -93,6 +93,7 @@ type ReplayFile struct {
 	Schedule     []chansim.Event     `json:"schedule"`
 	Engine       string              `json:"engine"`
 	RepoRev      string              `json:"repo_rev"`
+	Variant      string              `json:"variant"` // "" or "go1.21": language version the catalogue was translated at
 }
 
 func main() {
@@ -106,6 +107,7 @@ func main() {
 	replay := flag.String("replay", "", "replay this file and exit")
 	maxWall := flag.Duration("maxwall", 0, "stop after this wall time (0 = run the whole range)")
 	repoRev := flag.String("reporev", "", "recorded in replay files")
+	variant := flag.String("variant", "", "recorded in replay files")
 	digest := flag.Bool("digest", false, "print one line per run (determinism self-test)")
 	flag.Parse()
 
@@ -168,7 +170,7 @@ func main() {
 			tsMin := tape.ReplaySet(0, min)
 			oMin := runSet(*prop, tsMin, true)
 			rf := &ReplayFile{Property: *prop, Violation: o.Class, Detail: oMin.Detail, Seed: *seed, Run: idx,
-				Tape: tsMin.Recorded(), TapeOriginal: orig, Decoded: oMin.Decoded, Schedule: oMin.Trace, Engine: "chansim", RepoRev: *repoRev}
+				Tape: tsMin.Recorded(), TapeOriginal: orig, Decoded: oMin.Decoded, Schedule: oMin.Trace, Engine: "chansim", RepoRev: *repoRev, Variant: *variant}
 			if oMin.Class != o.Class {
 				rf.Tape, rf.Detail = orig, o.Detail
 			}
